@@ -119,11 +119,18 @@ theorem C01_result_map :
        ("dual slack", "-tz"), ("residual as primal infeasibility certificate", "None"),
        ("residual as dual infeasibility certificate", "None"), ("iterations", "iters")] := by decide
 
+/-- how the 's' blocks must be walked: block orders `m` from `dims['s']`, first block after the 'l' and 'q' parts, stride `m²` -/
+def symmWalk : String := "order m over dims['s'] from dims['l'] + sum(dims['q']) step m ** 2"
+
+/-- every return of `conelp` that hands out `s` or `z` symmetrises all of their 's' blocks with the correct offsets
+(a wrong start or stride corrupts the returned vectors only for particular cone structures) -/
+theorem C01_symm_walk : ∀ r ∈ conelp.returns, ∀ e ∈ r.2, e.1 = "symm" → e.2.2 = symmWalk := by decide
+
 /-- before the `'optimal'` return all four iterates are rescaled and both cone vectors are symmetrised -/
 theorem C01_epilogue_map :
     (conelp.returns[1]?).map (·.2) = some
       [("scal", "x", "1.0 / tau"), ("scal", "y", "1.0 / tau"), ("scal", "s", "1.0 / tau"),
-       ("scal", "z", "1.0 / tau"), ("symm", "s", ""), ("symm", "z", "")] := by decide
+       ("scal", "z", "1.0 / tau"), ("symm", "s", symmWalk), ("symm", "z", symmWalk)] := by decide
 
 /-- the iteration counter of a returned result never exceeds `maxiters`: the loop is
 `for iters in range(MAXITERS+1)` (C09_loop_bound) and at `iters = MAXITERS` the stopping test returns -/
